@@ -205,12 +205,13 @@ Theorem C03_exec_work_case_chain_refuted :
   WorkSpec.wcost 2 4096 (WorkProofs.case_chain 12) 0 = 8191.
 Proof. exact WorkProofs.exec_work_case_chain_refuted. Qed.
 Print Assumptions C03_exec_work_case_chain_refuted.
-(* ... and so does a pattern STRING the parser accepts: k groups "(%{|?)" followed by "01" (a brace left open inside
-   an alternative; the parser resets its depth at '|' instead of rejecting it): 7 * 2^k - 5 steps for 6k + 2
-   characters, on an image of zeros.  FINDING: super-polynomial work in the pattern length. *)
+(* ... and so did a pattern STRING the parser accepted before the repair of F40 ([parse_orig] = the parser as it
+   stood): k groups "(%{|?)" followed by "01" (a brace left open inside an alternative; the parser reset its depth at
+   '|' instead of rejecting it): 7 * 2^k - 5 steps for 6k + 2 characters, on an image of zeros - super-polynomial work
+   in the pattern length.  The repaired parser reports StackError at the first '|' ... *)
 Theorem C03_exec_work_unbalanced_brace_refuted :
-  parse (WorkProofs.brace_text 10) = Ok (inr (WorkProofs.brace_pat 10)) /\
-  parse (WorkProofs.brace_text 12) = Ok (inr (WorkProofs.brace_pat 12)) /\
+  parse_orig (WorkProofs.brace_text 10) = Ok (inr (WorkProofs.brace_pat 10)) /\
+  parse_orig (WorkProofs.brace_text 12) = Ok (inr (WorkProofs.brace_pat 12)) /\
   WorkProofs.no_many (WorkProofs.brace_pat 10) = true /\ WorkProofs.no_many (WorkProofs.brace_pat 12) = true /\
   lenN (WorkProofs.brace_pat 10) = 62 /\ lenN (WorkProofs.brace_pat 12) = 74 /\
   WorkSpec.cases_nested (WorkProofs.brace_pat 10) = false /\ WorkSpec.cases_nested (WorkProofs.brace_pat 12) = false /\
@@ -218,10 +219,23 @@ Theorem C03_exec_work_unbalanced_brace_refuted :
   WorkSpec.run_exec_steps (scan_of_view WorkProofs.zero_view) (WorkProofs.brace_pat 12) 256 [0] = Ok (false, [256], 28667).
 Proof. exact WorkProofs.exec_work_unbalanced_brace_refuted. Qed.
 Print Assumptions C03_exec_work_unbalanced_brace_refuted.
+Theorem C03_unbalanced_brace_rejected :
+  parse (WorkProofs.brace_text 10) = Ok (inl (StackError, 3%nat)) /\ parse (WorkProofs.brace_text 12) = Ok (inl (StackError, 3%nat)).
+Proof. exact WorkProofs.unbalanced_brace_rejected. Qed.
+Print Assumptions C03_unbalanced_brace_rejected.
 
-(* OPEN: C03_exec_compiled_patterns_nested : forall a, PatSyntax.wf a -> WorkSpec.cases_nested (PatSyntax.compile a) = true
-   (every compiled AST of the documented syntax passes the nesting check: braces are balanced inside alternatives by
-   construction of the AST).  Checked on the example ASTs of C11 only: *)
+(* ... and since that repair EVERY pattern string the parser accepts passes the nesting check, so the bound with one factor
+   per skip range and none per Case (C03_exec_work_nested, C03_exec_work_bounded) holds for every accepted pattern string
+   (Proofs/PatNestProofs.v: an invariant of the parser loop over all lists that refine the back-patched result). *)
+From PV.Proofs Require PatNestProofs.
+Theorem C03_exec_parsed_patterns_nested : forall s p, parse s = Ok (inr p) -> WorkSpec.cases_nested p = true.
+Proof. exact PatNestProofs.parse_nested. Qed.
+Print Assumptions C03_exec_parsed_patterns_nested.
+(* in particular every compiled AST of the documented syntax (the statement that was open before) *)
+Theorem C03_exec_compiled_patterns_nested : forall a, PatSyntax.wf a -> WorkSpec.cases_nested (PatSyntax.compile a) = true.
+Proof. exact PatNestProofs.compile_nested. Qed.
+Print Assumptions C03_exec_compiled_patterns_nested.
+(* examples computed *)
 Theorem C03_exec_nesting_check_examples :
   forallb (fun a => WorkSpec.cases_nested (PatSyntax.compile a))
    [ [PatSyntax.IByte 0x83; PatSyntax.IByte 0xc0; PatSyntax.IByte 0x2a; PatSyntax.IAlt [PatSyntax.IByte 0x6a; PatSyntax.IWild 1] [[PatSyntax.IByte 0x68; PatSyntax.IWild 4]]; PatSyntax.IByte 0xe8];
